@@ -21,6 +21,7 @@ def timeArgOf (j : Json) : TimeArg :=
   | .num _ => match jInt? j with
     | some t => .at t
     | none => .badType
+  | .bool b => .at (if b then 1 else 0)   -- Python: `bool` is an `int`, `check_attr_type(True, int)` passes
   | _ => .badType
 
 def readJ : Except Err (Option Int) → Json
